@@ -639,6 +639,10 @@ func (adapter *Adapter) watchAdapter(
 			return nil, err
 		}
 
+		// the retry budget (max elapsed time) is counted from the beginning of this outage,
+		// not from the moment the watch was established (or last resumed)
+		backoff.Reset()
+
 		for {
 			// retry loop - at the beginning of the loop 'err' is the error to be retried,
 			// lastBookmark is the last seen bookmark
